@@ -10,7 +10,9 @@ use std::io::{BufRead, Write};
 use std::panic;
 
 fn main() {
-    panic::set_hook(Box::new(|_| {}));
+    if std::env::var_os("GV_VERBOSE").is_none() {
+        panic::set_hook(Box::new(|_| {}));
+    }
     let stdin = std::io::stdin();
     let stdout = std::io::stdout();
     let mut out = std::io::BufWriter::with_capacity(1 << 16, stdout.lock());
